@@ -160,6 +160,8 @@ func handleLSet(params internal.HandlerFuncParams) ([]byte, error) {
 		return nil, errors.New("index must be within list range")
 	}
 
+	// Work on a copy: the stored list must not change if the write below is refused.
+	list = slices.Clone(list)
 	list[index] = params.Command[3]
 	if err = params.SetValues(params.Context, map[string]interface{}{key: list}); err != nil {
 		return nil, err
@@ -250,6 +252,8 @@ func handleLRem(params internal.HandlerFuncParams) ([]byte, error) {
 	if !ok {
 		return nil, errors.New("LREM command on non-list item")
 	}
+	// Work on a copy: the stored list must not change if the write below is refused.
+	list = slices.Clone(list)
 
 	removedCount := len(list)
 
@@ -337,7 +341,8 @@ func handleLMove(params internal.HandlerFuncParams) ([]byte, error) {
 			source: append([]string{}, sourceList[1:]...),
 			destination: func() []string {
 				if whereTo == "left" {
-					return append(sourceList[0:1], destinationList...)
+					// (a new slice: appending to sourceList[0:1] would overwrite the source list in place)
+					return append([]string{sourceList[0]}, destinationList...)
 				}
 				// whereTo == "right"
 				return append(destinationList, sourceList[0])
@@ -348,7 +353,7 @@ func handleLMove(params internal.HandlerFuncParams) ([]byte, error) {
 			source: append([]string{}, sourceList[:len(sourceList)-1]...),
 			destination: func() []string {
 				if whereTo == "left" {
-					return append(sourceList[len(sourceList)-1:], destinationList...)
+					return append([]string{sourceList[len(sourceList)-1]}, destinationList...)
 				}
 				// whereTo == "right"
 				return append(destinationList, sourceList[len(sourceList)-1])
